@@ -170,8 +170,25 @@ def all_fracs_3d(nx):
     return out
 
 
-def to_arrays(fracs, nx, phys, nd, np, reverse=False):
-    h = [Fraction(phys[i]).limit_denominator(10**6) / nx[i] for i in range(nd)]
+def frac_of(x):
+    """Exact rational meant by a decimal input number (0.1 -> 1/10)."""
+    return Fraction(x).limit_denominator(10**6)
+
+
+def cells_for(L, cell_size):
+    """Number of cells of the uniform grid whose cell size is closest to the target: round(L / cell_size), at least 1, in
+    exact arithmetic.  None when L / cell_size is a tie (k + 1/2): such targets are outside the contract."""
+    q = frac_of(L) / frac_of(cell_size)
+    if (2 * q).denominator == 1 and q.denominator != 1:
+        return None
+    return max(1, int(q + Fraction(1, 2)))
+
+
+def to_arrays(fracs, nx, phys, nd, np, reverse=False, origin=None):
+    """Physical vertex arrays of the fractures: vertex with grid index k on axis i is the float nearest to the exact
+    rational  origin_i + k * L_i / n_i  (so the input really is the grid line of the expected uniform grid)."""
+    h = [frac_of(phys[i]) / nx[i] for i in range(nd)]
+    org = [frac_of(origin[i]) if origin is not None else Fraction(0) for i in range(nd)]
     hf = [float(x) for x in h]
     arrs = []
     for f in fracs:
@@ -190,37 +207,71 @@ def to_arrays(fracs, nx, phys, nd, np, reverse=False):
                 pts.append(tuple(p))
         if reverse:
             pts = pts[::-1]
-        arrs.append(np.array([[p[ax] * hf[ax] for p in pts] for ax in range(nd)], dtype=float))
+        arrs.append(np.array([[float(org[ax] + p[ax] * h[ax]) for p in pts] for ax in range(nd)], dtype=float))
     return arrs, hf
 
 
 # ----------------------------------------------------------------------------- the contract
 
 
-def check_case(pp, np, nd, nx, phys, fracs, reverse=False, tol_rel=1e-12):
+def check_case(pp, np, nd, nx, phys, fracs, reverse=False, tol_rel=1e-12, entry="cart_grid", origin=None, cell_size=None):
     """Mesh the case with the real code and evaluate the postconditions.
+
+    entry "cart_grid": ``pp.meshing.cart_grid(fracs, nx, physdims=phys)`` on the box [0, phys].
+    entry "create_mdg:cartesian" / "create_mdg:tensor_grid": ``pp.create_mdg(grid_type, meshing_args, network)`` with
+    ``network = pp.create_fracture_network(fractures, pp.Domain(box))``, box = [origin, origin + phys], meshing_args =
+    {"cell_size": h} (or cell_size_x/_y/_z when ``cell_size`` is a tuple; cartesian only).  ``nx`` must be the cell
+    counts of the uniform grid closest to the target size (``cells_for``), else the case is skipped; the fractures are
+    given in index coordinates of that grid, i.e. they lie on the lines origin + k * phys / nx of the given domain.
+
     Returns (status, failures, info): status in {'ok', 'skip'}; failures = list of (obligation, detail)."""
     boxes = [frac_box_2d(f) if nd == 2 else frac_box_3d(f) for f in fracs]
     model = network_model(boxes, nd)
     if model is None:
         return "skip", [], {}
-    arrs, h = to_arrays(fracs, nx, phys, nd, np, reverse)
+    if entry != "cart_grid":
+        sizes = list(cell_size) if isinstance(cell_size, (tuple, list)) else [cell_size] * nd
+        if len(sizes) != nd or any(cells_for(phys[i], sizes[i]) != nx[i] for i in range(nd)):
+            return "skip", [], {}
+    arrs, h = to_arrays(fracs, nx, phys, nd, np, reverse, origin)
+    lo_x = [frac_of(origin[i]) if origin is not None else Fraction(0) for i in range(nd)]
+    lo_f = [float(x) for x in lo_x]
+    hi_f = [float(lo_x[i] + frac_of(phys[i])) for i in range(nd)]
     fails = []
 
     def bad(ob, detail):
         fails.append((ob, detail))
 
+    fn = "cart_grid" if entry == "cart_grid" else "create_mdg"
     try:
-        mdg = pp.meshing.cart_grid(arrs, np.array(nx), physdims=np.array(phys, dtype=float))
+        if entry == "cart_grid":
+            mdg = pp.meshing.cart_grid(arrs, np.array(nx), physdims=np.array(phys, dtype=float))
+        else:
+            grid_type = entry.split(":")[1]
+            keys = "xyz"
+            box = {}
+            for i in range(nd):
+                box[keys[i] + "min"], box[keys[i] + "max"] = lo_f[i], hi_f[i]
+            domain = pp.Domain(box)
+            fr = [pp.LineFracture(a) if nd == 2 else pp.PlaneFracture(a) for a in arrs]
+            network = pp.create_fracture_network(fr, domain)
+            if isinstance(cell_size, (tuple, list)):
+                margs = {"cell_size_" + keys[i]: float(cell_size[i]) for i in range(nd)}
+            else:
+                margs = {"cell_size": float(cell_size)}
+            mdg = pp.create_mdg(grid_type, margs, network)
     except Exception as e:  # noqa: BLE001
-        return "ok", [("cart_grid: returns a mixed-dimensional grid for an admissible network", f"{type(e).__name__}: {str(e)[:200]}")], {}
-    scale = float(max(phys))
+        return "ok", [(f"{fn}: returns a mixed-dimensional grid for an admissible network", f"{type(e).__name__}: {str(e)[:200]}")], {}
+    scale = float(max(max(abs(a), abs(b)) for a, b in zip(lo_f, hi_f)))
     tol = tol_rel * scale
+    if nd == 3 and tol_rel > 1e-12:
+        tol = max(tol, 1e-10)  # structured._create_embedded_2d_grid rounds to 1e-10 absolute, whatever the domain size
     hv = np.array(h + [1.0] * (3 - nd))
+    ov = np.array(lo_f + [0.0] * (3 - nd))
 
     def c2_of(x):
         """Twice the index coordinates of a physical point (rounded), and the rounding error in physical units."""
-        idx2 = 2.0 * np.asarray(x)[:nd] / hv[:nd]
+        idx2 = 2.0 * (np.asarray(x)[:nd] - ov[:nd]) / hv[:nd]
         r = np.rint(idx2)
         err = float(np.max(np.abs((idx2 - r) * hv[:nd] / 2.0))) if nd else 0.0
         if nd == 2:
@@ -238,14 +289,25 @@ def check_case(pp, np, nd, nx, phys, fracs, reverse=False, tol_rel=1e-12):
     hosts = [g for g in subs if g.dim == nd]
     # ---- (4) host volume and cell count
     if len(hosts) != 1:
-        bad("cart_grid: exactly one host grid of the ambient dimension", f"{len(hosts)} grids of dimension {nd}")
+        bad(f"{fn}: exactly one host grid of the ambient dimension", f"{len(hosts)} grids of dimension {nd}")
         return "ok", fails, {}
     host = hosts[0]
     dom = 1.0
     for p in phys:
         dom *= float(p)
-    if abs(float(host.cell_volumes.sum()) - dom) > 1e-12 * dom or host.num_cells != int(np.prod(nx)):
-        bad("host: volume equals the domain volume", f"sum(cell_volumes)={host.cell_volumes.sum()!r} domain={dom!r} cells={host.num_cells}")
+    # the host is a mesh of the given domain: it lies in the domain's box and has the domain's volume (cart_grid: and has
+    # the requested number of cells, nx being an input there)
+    ext_lo, ext_hi = host.nodes[:nd].min(axis=1), host.nodes[:nd].max(axis=1)
+    inside = all(ext_lo[i] >= lo_f[i] - 1e-9 * scale and ext_hi[i] <= hi_f[i] + 1e-9 * scale for i in range(nd))
+    if nd == 2:
+        inside = inside and float(np.max(np.abs(host.nodes[2]))) <= 1e-9 * scale
+    count_ok = entry != "cart_grid" or host.num_cells == int(np.prod(nx))
+    if abs(float(host.cell_volumes.sum()) - dom) > 1e-12 * dom or not inside or not count_ok:
+        bad("host: volume equals the domain volume",
+            f"sum(cell_volumes)={host.cell_volumes.sum()!r} domain volume={dom!r} cells={host.num_cells}; host extent "
+            f"{ext_lo.tolist()}..{ext_hi.tolist()} domain {lo_f}..{hi_f}")
+        # without a host that tiles the given domain the grid-line model of the remaining clauses has no meaning
+        return "ok", fails, {}
 
     # ---- (5) lower-dimensional grids tile exactly the fractures and their intersections
     cellsets = {}
@@ -433,11 +495,91 @@ def classify(nd, fracs):
     return f"{nd}-d, {n} fracture{'s' if n > 1 else ''}, {kind}"
 
 
+def signature_of(entry, nd, nx, phys, fracs, origin, cell_size):
+    """Failing-input class used as violation signature.  cart_grid: the fracture configuration.  create_mdg: grid type and
+    the class of (domain, cell size), independent of the fractures."""
+    if entry == "cart_grid":
+        return classify(nd, fracs)
+    gt = entry.split(":")[1]
+    if origin is not None and any(frac_of(o) != 0 for o in origin):
+        return f"create_mdg {gt}, domain lower corner not at the origin"
+    sizes = list(cell_size) if isinstance(cell_size, (tuple, list)) else [cell_size] * nd
+    divides = all((frac_of(phys[i]) / frac_of(sizes[i])).denominator == 1 for i in range(nd))
+    return f"create_mdg {gt}, {nd}-d, cell size {'dividing' if divides else 'not dividing'} the side lengths"
+
+
 # ----------------------------------------------------------------------------- families
 
 
+def mdg_families(tier, rng):
+    """pp.create_mdg cases: yields (nd, nx, phys, fracs, reverse, tol_rel, entry, origin, cell_size)."""
+    quick = tier == "quick"
+    both = ("cartesian", "tensor_grid")
+    # ---- 2-D: (origin, side lengths, target cell size, grid types); nx = round(L / h) from cells_for
+    cfg2 = [
+        # size not dividing the side: 3 x 3 cells of size 1/3; X crossing, one fracture reaching the boundary x = 1
+        ((0, 0), (1.0, 1.0), 0.3, both, [(("h", 2, 1, 3), ("v", 2, 1, 3))]),
+        # 6 x 3 cells of size 1/3; L contact
+        ((0, 0), (2.0, 1.0), 0.35, both, [(("h", 1, 1, 4), ("v", 4, 1, 3))]),
+        ((0, 0), (1.0, 1.0), 0.25, both, []),           # dividing (control)
+        ((0, 0), (0.9, 1.0), (0.3, 0.25), ("cartesian",), []),   # cell_size_x / cell_size_y, decimal spacing
+        # lower corner not at the origin: [1, 3] x [0, 1], fracture from (1.5, 0.5) to (2.5, 0.5)
+        ((1.0, 0), (2.0, 1.0), 0.5, both, [(("h", 1, 1, 3),)]),
+        # lower corner with a negative and a positive coordinate: [-0.5, 0.5] x [0.25, 1]
+        ((-0.5, 0.25), (1.0, 0.75), 0.25, both, [(("h", 1, 0, 3),), (("v", 3, 1, 3),)]),
+        ((0, 0.5), (1.0, 1.0), 0.3, both, []),          # only ymin non-zero, size not dividing
+    ]
+    for org, L, cs, types, fixed in cfg2:
+        sizes = cs if isinstance(cs, tuple) else (cs, cs)
+        nx = tuple(cells_for(L[i], sizes[i]) for i in range(2))
+        F = all_fracs_2d(nx)
+        singles = [(f,) for f in F]
+        pairs = list(itertools.combinations(F, 2))
+        for gt in types:
+            sets = list(fixed) + rng.sample(singles, min(len(singles), 4 if quick else 20)) + rng.sample(pairs, min(len(pairs), 6 if quick else 150))
+            for fs in sets:
+                yield 2, nx, L, fs, False, 1e-12, "create_mdg:" + gt, org, cs
+    # ---- 3-D
+    cfg3 = [
+        # unit cube, size 0.3 not dividing the side: 3 x 3 x 3 cells
+        ((0, 0, 0), (1.0, 1.0, 1.0), 0.3, both,
+         [((2, 2, (1, 3), (1, 2)),), ((0, 1, (0, 3), (0, 3)), (1, 2, (0, 3), (1, 3)))], 2, 2),
+        # 10 cm cube, cells 0.02 x 0.05 x 0.05: every interior plane x = k * 0.02 (decimal spacing), X and T with a z-plane
+        ((0, 0, 0), (0.1, 0.1, 0.1), (0.02, 0.05, 0.05), ("cartesian",),
+         [((0, k, (0, 2), (0, 2)),) for k in (1, 2, 3, 4)] +
+         [((0, 3, (0, 2), (0, 2)), (2, 1, (1, 5), (0, 2))), ((0, 3, (0, 2), (0, 2)), (2, 1, (3, 5), (0, 2)))], 0, 0),
+        # box 1.2 x 1 x 1, cells 0.1 x 0.5 x 0.5: plane x = 0.7, alone and crossed by the plane z = 0.5
+        ((0, 0, 0), (1.2, 1.0, 1.0), (0.1, 0.5, 0.5), ("cartesian",),
+         [((0, 7, (0, 2), (0, 2)),), ((0, 7, (0, 2), (0, 2)), (2, 1, (4, 10), (0, 2)))], 0, 0),
+        # 10 cm cube, tensor grid with 2 x 2 x 2 cells
+        ((0, 0, 0), (0.1, 0.1, 0.1), 0.05, ("tensor_grid",),
+         [((0, 1, (0, 2), (0, 1)),), ((0, 1, (0, 2), (0, 2)), (1, 1, (1, 2), (0, 2)))], 0, 0),
+        # lower corner not at the origin
+        ((1.0, -0.5, 0), (1.0, 1.0, 1.0), 0.5, both,
+         [((0, 1, (0, 2), (0, 2)),), ((0, 1, (0, 2), (0, 2)), (1, 1, (0, 1), (0, 2)))], 1, 0),
+        ((0, 0, 0.4), (1.0, 1.0, 0.6), 0.3, both, [((2, 1, (0, 3), (1, 3)),)], 1, 0),
+    ]
+    for org, L, cs, types, fixed, n1, n2 in cfg3:
+        sizes = cs if isinstance(cs, tuple) else (cs, cs, cs)
+        nx = tuple(cells_for(L[i], sizes[i]) for i in range(3))
+        F = all_fracs_3d(nx)
+        pairs = list(itertools.combinations(F, 2))
+        dyadic = all(((frac_of(L[i]) / nx[i]).denominator & ((frac_of(L[i]) / nx[i]).denominator - 1)) == 0 for i in range(3))
+        for gt in types:
+            sets = list(fixed) + [(f,) for f in rng.sample(F, n1 if quick else 6 * n1)] + rng.sample(pairs, n2 if quick else 20 * n2)
+            for fs in sets:
+                yield 3, nx, L, fs, False, (1e-12 if dyadic else 1e-9), "create_mdg:" + gt, org, cs
+
+
 def families(tier, rng):
-    """Yields (nd, nx, phys, fracs, reverse, tol_rel)."""
+    """Yields (nd, nx, phys, fracs, reverse, tol_rel, entry, origin, cell_size)."""
+    for case in cart_families(tier, rng):
+        yield case + ("cart_grid", None, None)
+    yield from mdg_families(tier, rng)
+
+
+def cart_families(tier, rng):
+    """pp.meshing.cart_grid cases: yields (nd, nx, phys, fracs, reverse, tol_rel)."""
     quick = tier == "quick"
     # ---- 2-D base grid 3x3, unit cells: exhaustive over sets of <= 2 (quick) / <= 3 (thorough) fractures
     nx = (3, 3)
@@ -487,6 +629,26 @@ def families(tier, rng):
         sets4 = list(itertools.combinations(F4, 1)) + list(itertools.combinations(F4, 2))
         for fs in rng.sample(sets4, 12 if quick else 250):
             yield 3, nx4, phys, fs, True, tolr
+    # ---- 3-D decimal side lengths / cell sizes (physdims != nx, spacing not a binary fraction): along one refined axis every
+    # interior grid plane k * L / n (a sample of them for n = 12) carries a rectangle, alternately full and partial; for one
+    # plane per grid also an X crossing with an orthogonal plane.  The two other axes have 2 cells.
+    dec = [(0.1, 5), (0.1, 4), (0.9, 3), (1.1, 3), (2.1, 3), (0.7, 6), (1.2, 12)]
+    shapes = [((0, 2), (0, 2)), ((0, 1), (0, 2)), ((1, 2), (0, 2)), ((0, 2), (1, 2))]
+    for i, (L, n) in enumerate(dec):
+        a = i % 3
+        nx5, ph5 = [2, 2, 2], [0.1 if L < 0.5 else 1.0] * 3
+        nx5[a], ph5[a] = n, L
+        nx5, ph5 = tuple(nx5), tuple(ph5)
+        planes = list(range(1, n)) if n <= 6 else [1, 6, 7, 11]
+        if not quick and n > 6:
+            planes = list(range(1, n))
+        for j, k in enumerate(planes):
+            yield 3, nx5, ph5, ((a, k, *shapes[(i + j) % 4]),), bool(j % 2), 1e-9
+        k = (n + 1) // 2 if n <= 6 else 7
+        b = (a + 1) % 3
+        # orthogonal plane through index 1 of axis b, spanning the whole domain
+        others_b = [ax for ax in range(3) if ax != b]
+        yield 3, nx5, ph5, ((a, k, (0, 2), (0, 2)), (b, 1, (0, nx5[others_b[0]]), (0, nx5[others_b[1]]))), False, 1e-9
 
 
 def run(rep):
@@ -514,19 +676,24 @@ def run(rep):
         bound="<= 3 fractures; grids up to 4x3 (2-D) and 3x2x2 (3-D)",
         exhaustive=False,
     ) as sw:
-        classes = {}
-        for nd, nx, phys, fracs, reverse, tolr in families(rep.tier, rep.rng):
-            status, fails, info = check_case(pp, np, nd, nx, phys, fracs, reverse, tolr)
+        classes, entries = {}, {}
+        for nd, nx, phys, fracs, reverse, tolr, entry, origin, cell_size in families(rep.tier, rep.rng):
+            status, fails, info = check_case(pp, np, nd, nx, phys, fracs, reverse, tolr, entry, origin, cell_size)
             if status == "skip":
                 sw.skip()
                 continue
-            inputs = {"nd": nd, "nx": list(nx), "physdims": list(phys), "fracs": [list(f) for f in fracs], "reverse": reverse, "tol_rel": tolr}
-            sw.case(key=(nd, nx, phys, fracs), nontrivial=len(fracs) > 0, sample=inputs)
+            inputs = {"nd": nd, "nx": list(nx), "physdims": list(phys), "fracs": [list(f) for f in fracs], "reverse": reverse, "tol_rel": tolr,
+                      "entry": entry, "origin": list(origin) if origin is not None else None,
+                      "cell_size": list(cell_size) if isinstance(cell_size, tuple) else cell_size}
+            sw.case(key=(entry, nd, nx, phys, origin, cell_size, fracs), nontrivial=len(fracs) > 0, sample=inputs)
             cls = classify(nd, fracs)
             classes[cls] = classes.get(cls, 0) + 1
+            entries[entry] = entries.get(entry, 0) + 1
+            sig = signature_of(entry, nd, nx, phys, fracs, origin, cell_size)
             for ob, detail in fails:
-                rep.violation(ob, cls, inputs=inputs, detail=detail, confirmed=True)
+                rep.violation(ob, sig, inputs=inputs, detail=detail, confirmed=True)
         rep.extra["cases_by_configuration"] = classes
+        rep.extra["cases_by_entry_point"] = entries
 
 
 def replay(data):
@@ -543,7 +710,10 @@ def replay(data):
     def tup(x):
         return tuple(tup(y) for y in x) if isinstance(x, list) else x
 
-    status, fails, _ = check_case(pp, np, inp["nd"], tuple(inp["nx"]), tuple(inp["physdims"]), tup(inp["fracs"]), inp.get("reverse", False), inp.get("tol_rel", 1e-12))
+    origin = tup(inp["origin"]) if inp.get("origin") is not None else None
+    cell_size = tup(inp["cell_size"]) if inp.get("cell_size") is not None else None
+    status, fails, _ = check_case(pp, np, inp["nd"], tuple(inp["nx"]), tuple(inp["physdims"]), tup(inp["fracs"]), inp.get("reverse", False),
+                                  inp.get("tol_rel", 1e-12), inp.get("entry", "cart_grid"), origin, cell_size)
     for f in fails:
         print("replay:", f)
     return bool(fails)
